@@ -106,6 +106,10 @@ class C21(PropBase):
                "faults": "all" if tier == "thorough" else {"single": 10, "multi": 3}, "fseed": rng.next() % (1 << 30)}
         scn["project"] = gen_project_mode(rng, proj["units"], 0.25)
         scn["bd"] = rng.chance(0.25)      # every run gets a fresh build dir: cache files are written by the dying workers
+        from .execsim import gen_cmdline_suppressions
+        scn["suppr"] = gen_cmdline_suppressions(rng, proj["units"]) if rng.chance(0.5) else []
+        if scn["suppr"] and rng.chance(0.5):
+            scn["opts"]["--enable"] = rng.choice(["--enable=style,information", "--enable=warning,information", "--enable=all"])
         return scn
 
     def _boundaries(self, msgs):
@@ -139,7 +143,7 @@ class C21(PropBase):
             if scn.get("bd"):
                 os.makedirs(os.path.join(wd, "bd_" + tag))
                 b, roots = ["--cppcheck-build-dir=../bd_" + tag], ["../bd_" + tag]
-            return STD + gen.flatten_opts(scn.get("opts", {})) + ["--error-exitcode=%d" % E] + b + exec_args(scn["run"]) + \
+            return STD + gen.flatten_opts(scn.get("opts", {})) + list(scn.get("suppr", [])) + ["--error-exitcode=%d" % E] + b + exec_args(scn["run"]) + \
                 input_args(scn, scn["units"], tree_dir, wd, "cdb"), roots
         args, roots = args_for("twin")
         twin = core.run_sim("plain", tree_dir, args, plan=plan_of(scn["run"]), roots=roots, workdir=wd, tag="twin", strip=strip)
@@ -267,6 +271,9 @@ class C21(PropBase):
             return
         for c in project_candidates(scn):
             yield c
+        for i in range(len(scn.get("suppr", []))):
+            c = copy.deepcopy(scn); del c["suppr"][i]
+            yield c
         if scn.get("bd"):
             c = copy.deepcopy(scn); c["bd"] = False
             yield c
@@ -281,7 +288,7 @@ class C21(PropBase):
             yield c
 
     def describe(self, scn):
-        return {"units": scn["units"], "opts": gen.flatten_opts(scn.get("opts", {})), "error_exitcode": scn["exitcode"], "compile_commands": scn.get("project"), "build_dir": scn.get("bd"),
+        return {"units": scn["units"], "opts": gen.flatten_opts(scn.get("opts", {})), "error_exitcode": scn["exitcode"], "compile_commands": scn.get("project"), "build_dir": scn.get("bd"), "suppressions": scn.get("suppr"),
                 "run": " ".join(exec_args(scn["run"])), "faults": scn["faults"]}
 
 
